@@ -304,6 +304,16 @@ def timestamps(c: Ctx, rng, nrand: int, deterministic: bool) -> None:  # noqa: A
         for d in (-TD(seconds=1), -MS, -US, TD(0), US, MS, TD(seconds=1)):
             for tz in tzs:
                 vals.append((EPOCH + d).astimezone(tz))
+        # wall-clock microseconds against the zone's own sub-millisecond offset: equal to it, its complement, and a grid - so that every way
+        # of combining the two (sum, difference, either alone) is probed on both sides of "whole millisecond"
+        for tz in tzs:
+            off = tz.utcoffset(None) if isinstance(tz, datetime.timezone) else None
+            if off is None or not off.microseconds % 1000:
+                continue
+            o = off.microseconds % 1000
+            for us in sorted({o, (1000 - o) % 1000, (2 * o) % 1000, (1000 - 2 * o) % 1000, 0, 1, 999} | set(range(0, 1000, 125))):
+                for ms_part in (0, 5000):
+                    vals.append(D(2024, 5, 28, 12, 31, 7, ms_part + us, tzinfo=tz))
         vals += [D(1, 1, 1, tzinfo=UTC), D(1, 1, 1, tzinfo=tzs[1]), D(1969, 12, 31, 23, 59, 59, 999000, tzinfo=UTC), D(9999, 12, 31, 23, 59, 59, 999000, tzinfo=UTC),
                  D(9999, 12, 31, 23, 59, 59, 999999, tzinfo=UTC), D(9999, 12, 31, 23, 59, 59, tzinfo=UTC), D(9999, 12, 31, 23, 59, 59, tzinfo=tzs[1]),
                  D(9999, 12, 31, 23, 59, 59, tzinfo=tzs[2]), D(9999, 12, 31, 10, 0, 0, 1000, tzinfo=tzs[2]), D(9999, 12, 31, 9, 0, 0, tzinfo=tzs[2]),
